@@ -60,9 +60,18 @@ class Check:
     def fail_broken(self, msg):
         self.broken.append(msg)
 
+    @staticmethod
+    def _norm_construct(c):
+        """construct descriptor without the spelling of index expressions: 'v((j - 1)):size' and 'v(col):size' name the same
+        finding (container and dimension); a renamed local must not turn a recorded finding into a new alarm"""
+        import re
+        m = re.match(r"^([\w\.\*\[\]]+)\(.*\):(\w+)$", c)
+        return "%s:%s" % (m.group(1), m.group(2)) if m else c
+
     def _is_known(self, s):
         for i, k in enumerate(self.known):
-            if k["rule"] == s["rule"] and k["function"] == s["function"] and k["construct"] == s["construct"]:
+            if k["rule"] == s["rule"] and k["function"] == s["function"] and (k["construct"] == s["construct"] or
+                                                                             self._norm_construct(k["construct"]) == self._norm_construct(s["construct"])):
                 self.known_hit.add(i)
                 return k
         return None
